@@ -127,7 +127,7 @@ def _close_order_differs(lts, log):
 
 def run_case(case, acc):
     fam = case['fam']
-    ctx = opspecs.Ctx()
+    ctx = opspecs.Ctx(True)
     out = []
     if fam == 'top':
         w, s, n = case['w'], case['s'], case['n']
@@ -152,7 +152,7 @@ def run_case(case, acc):
             out.append(viol('top|%s' % sym, {'expected': exp, 'observed': sink.items}))
         if not out or True:
             out.extend(v for v in check_brackets(ctx.log('h'), exp, 'top') if v['signature'] not in [o['signature'] for o in out])
-        acc.states.add(fast_hash(store_snapshot(store)))
+        acc.states.update(ctx.states)
         acc.outcomes.add(fast_hash(repr(sink.items)))
         if len(exp) >= 2:
             acc.nontrivial.add(fast_hash(repr(case)))
@@ -226,7 +226,7 @@ def run_case(case, acc):
                     out.append(v)
         if len(set(order)) > 1 and order != sorted(order):
             acc.count('interleaved_keys')
-    acc.states.add(fast_hash(store_snapshot(store)))
+    acc.states.update(ctx.states)
     acc.outcomes.add(fast_hash(repr(sink.items)))
     if len(exp) >= 2:
         acc.nontrivial.add(fast_hash(repr(case)))
@@ -236,7 +236,7 @@ def run_case(case, acc):
 def run_raw(case, acc):
     w, s = case['w'], case['s']
     events = [tuple(e) for e in case['events']]
-    ctx = opspecs.Ctx()
+    ctx = opspecs.Ctx(True)
     spec = [['roll', w, s, INNER]]
     sink = run_raw_mux(opspecs.build(spec, ctx), events)
     acc.evals += 1
@@ -281,7 +281,7 @@ def run_raw(case, acc):
         acc.count('key_index_reused')
     if len(set(e[1] for e in events)) > 1:
         acc.count('two_keys')
-    acc.states.add(fast_hash(store_snapshot(sink.store)))
+    acc.states.update(ctx.states)
     acc.outcomes.add(fast_hash(repr(sink.items)))
     if len([e for e in exp if e[0] == 'n']) >= 2:
         acc.nontrivial.add(fast_hash(repr(case)))
